@@ -107,9 +107,18 @@ func c05Generate(c *mon.Ctx) {
 			q = rels[r.Intn(len(rels))]
 		}
 
-		return &c05Case{
-			A: mon.MkElemCase(pv, gen.DrawRepr(r, pv.P.IsInf())), B: mon.MkElemCase(q, gen.DrawRepr(r, q.P.IsInf())), Rel: q.Tag,
+		a, b := mon.MkElemCase(pv, gen.DrawRepr(r, pv.P.IsInf())), mon.MkElemCase(q, gen.DrawRepr(r, q.P.IsInf()))
+
+		if r.Intn(6) == 0 {
+			// the same value reached through two different implementation operations (or one natural, one raw)
+			src := gen.Fresh(r)
+			a = mon.MkNatElemCase(src, r.Intn(8))
+			b = mon.MkElemCase(gen.PV{P: a.P.Pt(), Tag: "same-value"}, gen.DrawRepr(r, a.P.Inf))
+
+			return &c05Case{A: a, B: b, Rel: "P"}
 		}
+
+		return &c05Case{A: a, B: b, Rel: q.Tag}
 	})
 }
 
